@@ -7,6 +7,11 @@ TB = ('Coq 8.16.1 kernel (coqc, full .vo builds, vm_compute; no native_compute);
       'the correspondence harness (g++ 12 -O1, ASan+UBSan+float-cast-overflow, exact-size heap buffers) and its generators; the hand-written model is tied to /repo/src by that correspondence, '
       'which is differential testing. ')
 CLAIMED = {
+ 'C17': dict(text='Theorems about a Gallina model of SendInActisenseFormat and tActisenseReader: every well-formed message (1..223 bytes, any escape density, any header) encodes to a frame that fits the buffer and is decoded '
+                  'as exactly that one message after any byte prefix that does not end mid-escape; the reader never writes outside its buffers on any byte stream from any reachable state; it reports only on a consistent frame '
+                  '(length, data length, checksum); ESC STX resynchronises independently of stale buffer content; ReadOut=false is equivalent.  Model tied to the C++ by correspondence on encode, decode (with every split point) and round trips.',
+             note=TB + 'Modelled: N2kMsg.cpp (SendInActisenseFormat) and ActisenseReader.cpp; the forwarding path through tNMEA2000 calls the same encoder and is not separately modelled; x86-64 (signed char).',
+             design='6 C17', technique='Coq proof over executable model + extracted-model/implementation correspondence'),
  'C01': dict(text='Theorems about the model of the send path: the 29-bit identifier carries priority, PGN, source and (PDU1) destination for all 2^17 PGNs x priorities x addresses (algebraic, no enumeration) and is refused '
                   'exactly for addressable PGNs with a low byte; the fast-packet frames of every payload up to 223 bytes decode to the payload under a reference decoder with correct counters, length byte and 0xFF padding; '
                   'sequence ids of declared PGNs are consecutive for every send history; classification agrees with an independent reference table; refusals are silent; an accepted message reaches the driver as exactly '
